@@ -105,7 +105,8 @@ Lemma render_diff_part : forall r t cfg done scr pos cv td,
      tgrid (trun W (trun W t (prologue r)) td) y x = tgrid t y x) /\
   (1 <= H ->
    okrun (if done then Z.max (H - 1) (Z.min (sh scr) H) else H - 1)
-         (Z.min (Z.max (sh scr) (prevh r)) H - 1) W t (prologue r ++ td)).
+         (Z.min (Z.max (sh scr) (prevh r)) H - 1) W t (prologue r ++ td)) /\
+  (forall y x, y < 0 -> tgrid (trun W (trun W t (prologue r)) td) y x = tgrid t y x).
 Proof.
   intros r t cfg done scr pos cv td S Ws D.
   pose proof (prologue_run r t S) as P. cbv zeta in P. fold (prologue r) in P.
@@ -126,9 +127,10 @@ Proof.
     - split; [congruence|]. intros F. rewrite A, Ap, F. reflexivity. }
   destruct (screen_diff_ok W (tbs cfg) pvis HW (Hpv cfg) H fs done scr (last2_of r cfg) (rpos r) _ (rcv r)
               tp pos cv td HH Ws ltac:(congruence) ltac:(congruence) Cxr (proj1 Cyr) ltac:(congruence)
-              ltac:(unfold cvrel in *; destruct (rcv r); congruence) HP D) as (U2 & R & FR & OKD).
+              ltac:(unfold cvrel in *; destruct (rcv r); congruence) HP D) as (U2 & R & FR & AB & OKD).
   split; [congruence|]. split; [exact R|]. split.
   { intros p EP ED ES y x Hy. rewrite (FR p EP ED ltac:(rewrite ES; reflexivity) y x Hy). rewrite G. reflexivity. }
+  split; [|intros y x Hy; rewrite AB by exact Hy; rewrite G; reflexivity].
   intros H1. pose proof Ws as (_ & Hs0 & _ & _ & Cys).
   assert (PH : 0 <= match last2_of r cfg with Some p => sh p | None => 0 end <= prevh r).
   { unfold last2_of, prevh. destruct (cfg_eqb (rcfg r) cfg); [|destruct (rlast r) as [p|]; [|lia]].
@@ -168,7 +170,7 @@ Proof.
   intros r t cfg scr r' ks S Ws R. rewrite r_render_unfold in R.
   destruct (screen_diff _ _ _ _ _ _ _ _ _ _ _) as [[pos cv] td] eqn:D.
   inversion R; subst r' ks; clear R. rewrite trun_app.
-  destruct (render_diff_part r t cfg false scr pos cv td S Ws D) as (U & (N & P & A & V & CVE & X & Y & ND & _) & _ & _).
+  destruct (render_diff_part r t cfg false scr pos cv td S Ws D) as (U & (N & P & A & V & CVE & X & Y & ND & _) & _ & _ & _).
   destruct (ND eq_refl) as (EP & SH). subst pos. cbn [fst snd orb] in *.
   pose proof Ws as (_ & _ & _ & Cxs & Cys).
   split.
@@ -190,7 +192,7 @@ Proof.
   intros r t cfg scr p r' ks S Ws EL EC R y x Hy. rewrite r_render_unfold in R.
   destruct (screen_diff _ _ _ _ _ _ _ _ _ _ _) as [[pos cv] td] eqn:D.
   inversion R; subst r' ks; clear R. rewrite trun_app.
-  destruct (render_diff_part r t cfg false scr pos cv td S Ws D) as (_ & _ & FR & _).
+  destruct (render_diff_part r t cfg false scr pos cv td S Ws D) as (_ & _ & FR & _ & _).
   assert (ES : rsize r = Some (W, H)).
   { destruct S as (_ & _ & _ & _ & _ & _ & _ & _ & L). rewrite EL in L. destruct L as (c0 & _ & E & _). exact E. }
   apply (FR p); auto.
@@ -214,7 +216,7 @@ Proof.
   cbv zeta in R.
   match type of R with context [r_reset ?x] => destruct (r_reset x) as [r2 te] eqn:RS end.
   inversion R; subst r' ks; clear R. rewrite !trun_app.
-  destruct (render_diff_part r t cfg true scr pos cv td S Ws D) as (U & (N & P & A & V & CVE & X & Y & _ & DN) & _ & _).
+  destruct (render_diff_part r t cfg true scr pos cv td S Ws D) as (U & (N & P & A & V & CVE & X & Y & _ & DN) & _ & _ & _).
   destruct (DN eq_refl) as (EP & SH & BL). subst pos. cbn [fst snd orb] in *.
   set (td' := trun W (trun W t (prologue r)) td) in *.
   destruct (reset_run _ td' r2 te RS ltac:(cbn [rcv]; subst cv; exact V))
@@ -236,7 +238,8 @@ Lemma erase_sync : forall r t r' ks,
   Sync r t -> r_erase r = (r', ks) ->
   let t' := trun W t ks in
   Sync r' t' /\ pen t' = 0 /\ aw t' = true /\ cvis t' = true /\
-  (forall y x, 0 <= y -> 0 <= x -> tgrid t' y x = blank (pen t)).
+  (forall y x, 0 <= y -> 0 <= x -> tgrid t' y x = blank (pen t)) /\
+  (forall y x, y < 0 -> tgrid t' y x = tgrid t y x).
 Proof.
   intros r t r' ks (Cx & Cy & Cxr & Cyr & Cp & U & CV & ALT & L) E.
   unfold r_erase in E. destruct (rpos r) as [x y] eqn:RP. cbn [fst snd] in *.
@@ -256,7 +259,8 @@ Proof.
   destruct T3 as (G3 & X3 & Y3 & N3 & A3 & P3 & U3 & V3).
   destruct (reset_run r t3 r2 te RS ltac:(unfold cvrel in *; destruct (rcv r); congruence))
     as ((G & X4 & Y4 & N4 & A4 & P4 & U4) & V4 & CV4 & PS4 & L4 & AL4).
-  split; [|split; [congruence|split; [congruence|split; [exact V4|]]]].
+  split; [|split; [congruence|split; [congruence|split; [exact V4|split]]]]; cycle 2.
+  { intros y0 x0 Hy0. rewrite G, G3. rewrite erase_down_above by lia. rewrite G2, G1. reflexivity. }
   - unfold Sync. rewrite PS4, L4, CV4. cbn [fst snd].
     split; [congruence|]. split; [congruence|]. split; [lia|]. split; [lia|].
     split; [congruence|]. split; [congruence|]. split; [exact V4|]. split; [auto|exact I].
@@ -297,7 +301,7 @@ Proof.
   intros r t cfg scr r' ks S Ws H1 R. rewrite r_render_unfold in R.
   destruct (screen_diff _ _ _ _ _ _ _ _ _ _ _) as [[pos cv] td] eqn:D.
   inversion R; subst r' ks; clear R.
-  destruct (render_diff_part r t cfg false scr pos cv td S Ws D) as (_ & _ & _ & OK). exact (OK H1).
+  destruct (render_diff_part r t cfg false scr pos cv td S Ws D) as (_ & _ & _ & OK & _). exact (OK H1).
 Qed.
 
 Lemma render_done_rows : forall r t cfg scr r' ks,
@@ -310,11 +314,30 @@ Proof.
   cbv zeta in R.
   match type of R with context [r_reset ?x] => destruct (r_reset x) as [r2 te] eqn:RS end.
   inversion R; subst r' ks; clear R.
-  destruct (render_diff_part r t cfg true scr pos cv td S Ws D) as (_ & _ & _ & OK). specialize (OK H1).
+  destruct (render_diff_part r t cfg true scr pos cv td S Ws D) as (_ & _ & _ & OK & _). specialize (OK H1).
   rewrite app_assoc. apply okrun_app. split; [exact OK|].
   apply okrun_nondesc; [eapply reset_nondesc; eauto| |lia].
   apply okrun_final with (b2 := Z.min (Z.max (sh scr) (prevh r)) H - 1); [|exact OK].
   destruct S as (_ & Cy & _ & Cyr & _). lia.
+Qed.
+
+(* nothing above the origin (the scrollback above an inline prompt) is ever changed *)
+Lemma render_rows_above : forall r t cfg done scr r' ks,
+  Sync r t -> wf_screen W H scr ->
+  r_render tbs fs r cfg done W H scr = (r', ks) ->
+  forall y x, y < 0 -> tgrid (trun W t ks) y x = tgrid t y x.
+Proof.
+  intros r t cfg done scr r' ks S Ws R y x Hy. rewrite r_render_unfold in R.
+  destruct (screen_diff _ _ _ _ _ _ _ _ _ _ _) as [[pos cv] td] eqn:D.
+  destruct (render_diff_part r t cfg done scr pos cv td S Ws D) as (_ & (_ & _ & _ & V & CVE & _) & _ & _ & AB).
+  destruct done.
+  - cbv zeta in R.
+    match type of R with context [r_reset ?x] => destruct (r_reset x) as [r2 te] eqn:RS end.
+    inversion R; subst r' ks; clear R. rewrite !trun_app.
+    destruct (reset_run _ (trun W (trun W t (prologue r)) td) r2 te RS ltac:(cbn [rcv]; subst cv; exact V))
+      as ((G & _) & _).
+    rewrite G. apply AB. exact Hy.
+  - inversion R; subst r' ks; clear R. rewrite trun_app. apply AB. exact Hy.
 Qed.
 
 (* the final render of an output that leaves at least one terminal row free
@@ -436,6 +459,92 @@ Proof.
   intros ops cfg scr r0 t0 r0' t0' S0 S0' _ F Ws.
   rewrite run_seq_app.
   pose proof (seq_sync ops r0 t0 S0 F) as S1.
+  destruct (run_seq r0 t0 ops) as [r1 t1]. cbn [fst snd] in *.
+  cbn [run_seq r_step].
+  destruct (r_render tbs fs r1 cfg false W H scr) as [ra ka] eqn:Ra.
+  destruct (r_render tbs fs r0' cfg false W H scr) as [rb kb] eqn:Rb.
+  cbn [snd]. unfold t_step; cbn [op_shifts].
+  destruct (render_notdone r1 t1 cfg scr ra ka S1 Ws Ra) as (_ & Fa).
+  destruct (render_notdone r0' t0' cfg scr rb kb S0' Ws Rb) as (_ & Fb).
+  eapply final_visible_eq; eauto.
+Qed.
+
+(* ---- bare reset(): allowed where the renderer is fresh (right after a final
+   render, an erase, another reset, or construction): there the cursor is at the
+   origin and nothing is remembered, so reset only re-emits mode tokens ---- *)
+Definition Fresh (r : rst) : Prop := rlast r = None /\ rpos r = (0, 0).
+
+Lemma reset_fresh : forall r r2 ks, r_reset r = (r2, ks) -> Fresh r2.
+Proof.
+  intros r r2 ks R. unfold r_reset in R. destruct (show_cursor (rcv r)) as [cv k3].
+  inversion R; subst. split; reflexivity.
+Qed.
+
+Lemma reset_sync : forall r t r' ks,
+  Sync r t -> Fresh r -> r_reset r = (r', ks) -> Sync r' (t_step W t OReset ks) /\ Fresh r'.
+Proof.
+  intros r t r' ks (Cx & Cy & Cxr & Cyr & Cp & U & CV & ALT & L) (FL & FP) R.
+  split; [|eapply reset_fresh; eauto].
+  destruct (reset_run r t r' ks R CV) as ((G & X2 & Y2 & N2 & A2 & P2 & U2) & V2 & CV2 & PS2 & L2 & AL2).
+  rewrite FP in *. cbn [fst snd] in *.
+  unfold t_step; cbn [op_shifts]. unfold Sync. rewrite PS2, L2, CV2.
+  cbn [tshift cx cy pend undef cvis fst snd].
+  split; [congruence|]. split; [lia|]. split; [lia|]. split; [lia|].
+  split; [congruence|]. split; [congruence|]. split; [exact V2|]. split; [auto|exact I].
+Qed.
+
+Lemma render_done_fresh : forall r cfg scr r' ks,
+  r_render tbs fs r cfg true W H scr = (r', ks) -> Fresh r'.
+Proof.
+  intros r cfg scr r' ks R. rewrite r_render_unfold in R.
+  destruct (screen_diff _ _ _ _ _ _ _ _ _ _ _) as [[pos cv] td]. cbv zeta in R.
+  match type of R with context [r_reset ?x] => destruct (r_reset x) as [r2 te] eqn:RS end.
+  inversion R; subst. eapply reset_fresh; eauto.
+Qed.
+
+Lemma erase_fresh : forall r r' ks, r_erase r = (r', ks) -> Fresh r'.
+Proof.
+  intros r r' ks E. unfold r_erase in E. destruct (rpos r) as [x y].
+  destruct (r_reset r) as [r2 te] eqn:RS. inversion E; subst. eapply reset_fresh; eauto.
+Qed.
+
+(* histories with resets: a reset may only follow a final render, an erase or a reset *)
+Fixpoint okseq (fresh : bool) (ops : list op) : Prop :=
+  match ops with
+  | [] => True
+  | o :: rest =>
+      match o with
+      | ORender _ d _ _ _ => okop o /\ okseq d rest
+      | OErase => okseq true rest
+      | OReset => fresh = true /\ okseq true rest
+      end
+  end.
+
+Lemma seq_sync_reset : forall ops fresh r t,
+  Sync r t -> (fresh = true -> Fresh r) -> okseq fresh ops ->
+  Sync (fst (run_seq r t ops)) (snd (run_seq r t ops)).
+Proof.
+  induction ops as [|o ops IH]; intros fresh r t S F O; cbn [run_seq]; [exact S|].
+  destruct (r_step tbs fs r o) as [r' ks] eqn:R. cbn [okseq] in O.
+  destruct o as [cfg done W' H' scr| |].
+  - destruct O as (OK & O'). apply (IH done); [eapply step_sync; eauto| |exact O'].
+    intros ->. cbn [okop] in OK. destruct OK as (-> & -> & _). cbn [r_step] in R. eapply render_done_fresh; eauto.
+  - apply (IH true); [eapply step_sync; eauto; exact I| |exact O].
+    intros _. cbn [r_step] in R. eapply erase_fresh; eauto.
+  - destruct O as (-> & O'). cbn [r_step] in R.
+    destruct (reset_sync r t r' ks S (F eq_refl) R) as (S' & F').
+    apply (IH true); auto.
+Qed.
+
+Theorem equiv_scratch_reset : forall ops fresh cfg scr r0 t0 r0' t0',
+  Sync r0 t0 -> (fresh = true -> Fresh r0) -> Sync r0' t0' -> rlast r0' = None ->
+  okseq fresh ops -> wf_screen W H scr ->
+  visible_eq (snd (run_seq r0 t0 (ops ++ [ORender cfg false W H scr])))
+             (snd (run_seq r0' t0' [ORender cfg false W H scr])).
+Proof.
+  intros ops fresh cfg scr r0 t0 r0' t0' S0 F0 S0' _ O Ws.
+  rewrite run_seq_app.
+  pose proof (seq_sync_reset ops fresh r0 t0 S0 F0 O) as S1.
   destruct (run_seq r0 t0 ops) as [r1 t1]. cbn [fst snd] in *.
   cbn [run_seq r_step].
   destruct (r_render tbs fs r1 cfg false W H scr) as [ra ka] eqn:Ra.
